@@ -28,6 +28,10 @@ def gen(rng):
     defs = ['Tmp%d' % i for i in range(n_def)]
     body = []     # (kind, payload)
     setval, live = {}, {}
+    # an .equ whose expression reads a .set variable: it is evaluated where it is USED, with the assignment in force there
+    equx = {}
+    if sets and rng.random() < .6:
+        equx['Eqx0'] = (rng.choice(sets), rng.randrange(1, 9))
     # statements
     stmts = []
     for _ in range(rng.randrange(4, 14)):
@@ -52,6 +56,9 @@ def gen(rng):
         elif k < .6 and setval:
             s = rng.choice(list(setval))
             stmts.append(('ins', rng.choice(['.dw %s', 'ldi r16, %s', '.dw %s + 1']), 'val', s, setval[s]))
+        elif k < .68 and equx and equx['Eqx0'][0] in setval:
+            var, c = equx['Eqx0']
+            stmts.append(('ins', rng.choice(['.dw %s', 'ldi r17, %s', '.dw %s * 2', '.dw %s - 1']), 'val', 'Eqx0', setval[var] + c))
         elif k < .75 and equs:
             e = rng.choice(list(equs))
             stmts.append(('ins', rng.choice(['.dw %s', 'ldi r17, %s', 'subi r18, %s', '.dw %s * 2']), 'val', e, equs[e]))
@@ -63,6 +70,8 @@ def gen(rng):
     # equ definitions at random positions (forward references allowed), labels at random positions
     for e, v in equs.items():
         stmts.insert(rng.randrange(0, len(stmts) + 1), ('equ', e, v))
+    for e, (var, c) in equx.items():
+        stmts.insert(rng.randrange(0, len(stmts) + 1), ('equx', e, '%s + %d' % (case(rng, var), c)))
     for l in labs:
         stmts.insert(rng.randrange(0, len(stmts) + 1), ('label', l))
     # addresses: every 'ins' is one word; labels take the address of the next instruction
@@ -74,14 +83,18 @@ def gen(rng):
     for s in stmts:
         if s[0] == 'equ':
             lines.append('.equ %s = %d' % (case(rng, s[1]), s[2])); res.append('')
+        elif s[0] == 'equx':
+            lines.append('.equ %s = %s' % (case(rng, s[1]), s[2])); res.append('')
         elif s[0] == 'label':
             lines.append('%s:' % case(rng, s[1])); res.append('')
-        elif s[0] == 'set':
-            lines.append('.set %s = %s' % (case(rng, s[1]), s[2])); res.append('')
-        elif s[0] == 'def':
-            lines.append('.def %s = %s' % (case(rng, s[1]), case(rng, 'r%d' % s[2]))); res.append('')
-        elif s[0] == 'undef':
-            lines.append('.undef %s' % case(rng, s[1])); res.append('')
+        elif s[0] in ('set', 'def', 'undef'):
+            t = ('.set %s = %s' % (case(rng, s[1]), s[2]) if s[0] == 'set' else
+                 '.def %s = %s' % (case(rng, s[1]), case(rng, 'r%d' % s[2])) if s[0] == 'def' else '.undef %s' % case(rng, s[1]))
+            # these take effect wherever they stand, also inside a data or EEPROM section (one list element, three lines)
+            w = rng.random()
+            if w < .15: t = '.dseg\n' + t + '\n.cseg'
+            elif w < .22: t = '.eseg\n' + t + '\n.cseg'
+            lines.append(t); res.append('')
         else:
             tmpl, kind, name, val = s[1], s[2], s[3], s[4]
             if kind is None:
